@@ -42,7 +42,8 @@ def attribute_to_typer(ctx, flat, G):
         return False
     body = core.FLAT_HEADER.replace("Sem Types", "Sem Types Search")
     body += f"Eval vm_compute in [check_types {fp} {T}; check_types_drop {fp} {P.lst(drops)} {T}].\n"
-    body += f"Eval vm_compute in (type_search {fp} {T} 4).\n"
+    vs = sorted({a["var"] for a in flat["init"] + flat["body"]})
+    body += f"Eval vm_compute in (type_search {P.lst(['\"%s\"' % v for v in vs])} {fp} {T} 4).\n"
     ok, o = lib.coq_run(ctx, "attr", body, timeout=300)
     if not ok:
         return False
